@@ -25,7 +25,7 @@ CHECKS = {
     "C08": (
         "model_checking",
         "explicit-state exhaustive construction tree over position-sorted note streams (note by note) through the real NoteData.from_notes, checked in every node against an independent reader and a structure model; decode/re-encode stability on generated texts",
-        "Every stream of up to 3-4 notes over 3 players x 11 beats (tick-aligned, thirds, fifths, sevenths, several measures) x 1-3 columns, all type/keysound variants on 1-2 note streams, 1..16 columns, the empty stream, and decode/re-encode of generated and corpus texts; in every node: notes read back identical, column count, canonical structure (player sections, measures, 4 x LCM rows), stability.",
+        "Every stream of up to 3-4 notes over 3 players x 11 beats (tick-aligned, thirds, fifths, sevenths, several measures) x 1-3 columns, all type/keysound variants on 1-2 note streams, 1..16 columns, the empty stream, every pair of 17 beat denominators (triples of 10) in one measure, and decode/re-encode of generated and corpus texts; every note data object is read again (abandoned pass, two iterators) and fed back as generator and as itself; in every node: notes read back identical, column count, canonical structure (player sections, measures, 4 x LCM rows), stability.",
         "Trusted: mc/models/notes.py (independent reader, expected_structure). Streams satisfy from_notes' documented preconditions.",
         "DESIGN.md 5 (C08)",
     ),
@@ -105,7 +105,7 @@ CHECKS = {
     "C18": (
         "model_checking",
         "explicit-state breadth-first search to a fixpoint over closed state graphs (all ordered partial assignments of standard/alias/unrelated key x all operations) on real simfile and chart objects in lock-step with a dictionary model; likewise for the SM chart over {values}^6",
-        "For every known property of SMSimfile, SSCSimfile and SSCChart (aliases stops/FREEZES, bgchanges/ANIMATIONS, notes/NOTES2) every reachable model state x every operation (attribute get/set/del, key get/set/del/in on standard, alias and unrelated key, items) is executed on the real object: result or exception class, ordered items, attribute precedence, equality and serialization against an object built directly from the model state. Because the graph closes, this covers histories of any length over the alphabet. SM chart: all reachable states over {values}^6 under attribute/key/lower-case/unrelated-key operations, setdefault, update, pop, popitem.",
+        "For every known property of SMSimfile, SSCSimfile and SSCChart (aliases stops/FREEZES, bgchanges/ANIMATIONS, notes/NOTES2) every reachable model state x every operation (attribute get/set/del, key get/set/del/in on standard, alias and unrelated key, items) is executed on the real object: result or exception class, ordered items, attribute precedence, equality and serialization against an object built directly from the model state, serialization leaving the mapping untouched, and inequality of the same pairs in another insertion order. Because the graph closes, this covers histories of any length over the alphabet. SM chart: all reachable states over {values}^6 under attribute/key/lower-case/unrelated-key operations, setdefault, update, pop, popitem.",
         "Trusted: the dictionary + alias model (mc/drivers/c18.py m_apply). For a case variant of an SM field name 'refused' or 'assigned to the field' are both accepted; clear()/move_to_end() are outside the statement's operation alphabet.",
         "DESIGN.md 5 (C18)",
     ),
@@ -113,21 +113,21 @@ CHECKS = {
     "C05": (
         "model_checking",
         "exhaustive enumeration of byte payloads x tried-encoding lists through the real open functions, and of content class x file-name configuration x encoding list x filesystem x edit script through the real mutate(), each run followed by a whole-filesystem comparison with a bytes/codec model and a no-op second run",
-        "Detection: every 1-byte payload (MemoryFS and native) and 2-byte payloads (all with a high lead byte in thorough) embedded in .sm/.ssc files x 5 tried lists + explicit encoding: reported encoding = first of the list that decodes the whole file, loaded simfile = decoded text, UnicodeDecodeError only when none decodes. mutate: one payload per decodability signature x 2 layouts x {.sm,.ssc} x output x backup {none, other, =input, =output} x 3 encoding configurations x 2 filesystems x edit scripts: output/backup content, untouched input and other files, refused clashes, byte-stable no-op re-run.",
+        "Detection: every 1-byte payload (MemoryFS and native) and 2-byte payloads (all with a high lead byte in thorough) embedded in .sm/.ssc files x 5 tried lists + explicit encoding: reported encoding = first of the list that decodes the whole file, loaded simfile = decoded text, UnicodeDecodeError only when none decodes. mutate: one payload per decodability signature x 2 layouts x {.sm,.ssc} x output x backup {none, other, =input, =output} x 3 encoding configurations x 2 filesystems x edit scripts x output/backup names free or taken by older files x absolute or cwd-relative names (native); multi-byte characters at every offset around buffer sizes 512..8192 (thorough: 256..131072): output/backup content, untouched input and other files, refused clashes, byte-stable no-op re-run.",
         "Trusted: Python codecs; MemoryFS and the OS as stores. Values contain no bare carriage return.",
         "DESIGN.md 5 (C05)",
     ),
     "C06": (
         "fault_enumeration",
         "exhaustive fault enumeration on the real mutate() save path through a call-counting, fault-injecting filesystem seam: every body position x exception class, serialization and encoding faults at several positions, and an injected failure at every numbered open/write/flush/close call of the fault-free run",
-        "For {MemoryFS, native} x {.sm,.ssc} x 4 detected encodings x layout x output x backup: 8 exception classes at every position of every edit script (filesystem unchanged; CancelMutation swallowed, everything else propagates as the same object); unserializable and unencodable simfiles (input bytes intact); a failure at every call index k of the recorded call sequence (input intact unless it had been opened for writing; a requested backup complete before the output is opened; the injected exception reaches the caller).",
+        "For {MemoryFS, native} x {.sm,.ssc} x 4 detected encodings x layout x output name (none, another file, the input's own name, the input's name respelled) x backup x names free or taken by older files: 8 exception classes at every position of every edit script (filesystem unchanged; CancelMutation swallowed, everything else propagates as the same object); unserializable and unencodable simfiles (input bytes intact); a failure at every call index k of the recorded call sequence (input intact unless it had been opened for writing; a requested backup complete before the output is opened; the injected exception reaches the caller).",
         "Trusted: the seam only counts and fails calls (mc/fsseam.py); faults at call granularity, not power loss; no atomic replace is claimed once the input has been opened for writing.",
         "DESIGN.md 5 (C06)",
     ),
     "C16": (
         "model_checking",
         "explicit-state construction tree over SM source simfiles (optional-property subsets x timing spellings x chart lists) x simfile/chart templates through the real sm_to_ssc, every state compared with a conversion model and with the library's own timing and note readers",
-        "All subsets of <=3/4 of 12 optional source properties (ANIMATIONS alias, SSC-only keys already present, unknown and key-only keys) over OFFSET/BPMS/STOPS x 6 chart lists x 5 simfile templates x 4 chart templates, the corpus SM file x 20 template pairs, negative-timing sources: exact key set and values, chart order and fields, TimingData and NoteData equality, source/templates unmodified, no shared mutable objects (also by mutating the result), serialization reloads equal, NotImplementedError for negative BPM/stop.",
+        "All subsets of <=3/4 of 12 optional source properties (ANIMATIONS alias, SSC-only keys already present, unknown and key-only keys) over OFFSET/BPMS/STOPS x 6 chart lists x 6 simfile templates (none, empty, bare, blank, edited, with a chart) x 6 chart templates (none, empty, blank, extra keys, empty timing keys, NOTES2 spelling), the corpus SM file x 36 template pairs, negative-timing sources: exact key set and values, chart order and fields, TimingData and NoteData equality, source/templates unmodified, no shared mutable objects (also by mutating the result), serialization reloads equal, NotImplementedError for negative BPM/stop.",
         "Trusted: mc/models/convert.py; blank templates' content read from the library. Key order of the result is not claimed. FREEZES sources and partial chart templates are known findings.",
         "DESIGN.md 5 (C16)",
     ),
@@ -141,14 +141,14 @@ CHECKS = {
     "C19": (
         "model_checking",
         "exhaustive enumeration of directory trees (subsets of a name alphabet, multisets of pack children) x every listing order offered by a filesystem seam x options, on MemoryFS and the native filesystem, through the real SimfileDirectory / SimfilePack / opendir / openpack, compared with a tree model",
-        "Song directories: every subset of <=3/4 of 10 names (mixed-case extensions, near misses, other files) x all listing orders x ignore_duplicate x trailing slash; packs: every multiset of <=3/4 of 11 child kinds (sm, ssc, both, duplicates, stray text, empty, near-miss only, nested, loose file, loose image, CP932 file) x listing orders x ignore_duplicate x strict x encoding: paths, SSC preference, duplicate error / first listed, FileNotFoundError, exact pack membership, opendir/openpack agreement, loader options reaching every file.",
+        "Song directories: every subset of <=3/4 of 10 names (mixed-case extensions, near misses, other files) x all listing orders x ignore_duplicate x trailing slash; packs: every multiset of <=3/4 of 11 child kinds (sm, ssc, both, duplicates, stray text, empty, near-miss only, nested, loose file, loose image, CP932 file) x listing orders x ignore_duplicate x strict x encoding: paths, SSC preference, duplicate error / first listed, FileNotFoundError, exact pack membership, opendir/openpack agreement, loader options reaching every file; directories and packs also named relative to the current directory; one directory / pack object opened along every history of <=3/4 calls over default/strict/lenient (answers equal a fresh object's, new simfile object per call).",
         "Trusted: MemoryFS and the OS; the seam only permutes listings (mc/fsseam.py).",
         "DESIGN.md 5 (C19)",
     ),
     "C20": (
         "model_checking",
         "exhaustive enumeration of directory contents (subsets of a 24-name alphabet) x simfile property states x listing orders on MemoryFS and the native filesystem through the real Assets / SimfilePack.banner, compared with a pattern model that accepts any matching entry",
-        "Every subset of <=2/3 names hitting, nearly hitting and missing each documented pattern, simfile given or loaded, all listing orders; per asset kind 9 property states (absent, empty simfile object, empty, exact, other case, missing, sub-directory in other case, wrong-case sub-directory, missing sub-directory) x subsets of 5 directory extras; pack banners inside/beside x orders: answer is the named file (case-insensitive) else a pattern match else None, exists, normalized, stable on re-read; banner by extension priority.",
+        "Every subset of <=2/3 names hitting, nearly hitting and missing each documented pattern, simfile given or loaded, all listing orders; per asset kind 9 property states (absent, empty simfile object, empty, exact, other case, missing, sub-directory in other case, wrong-case sub-directory, missing sub-directory) (plus './x' and 'sub/../x' spellings) x subsets of 6 directory extras x directory spellings (plain, '/./', '/../', doubled separator); pack banners inside/beside (every set of <=2 of 15 neighbours incl. look-alike names) x orders x packs named relative to the current directory: answer is the named file (case-insensitive) else a pattern match else None, exists, normalized, stable on re-read; banner by extension priority.",
         "Trusted: mc/models/assets.py. Which of several matching entries is returned is not claimed; the disc image lookup is not claimed.",
         "DESIGN.md 5 (C20)",
     ),
